@@ -175,6 +175,7 @@ def run(pid, tier, seed, args, t0):
     seen_known = {}
     violations = []
     drift = 0
+    extra = {}
     tool = []
     cov = {"states": 0, "transitions": 0, "traces_validated_against_impl": 0, "evaluations": 0, "distinct_nontrivial": 0,
            "events_validated": 0, "sources": [], "samples": []}
@@ -192,6 +193,8 @@ def run(pid, tier, seed, args, t0):
                     tool.append((src, v, f))
                 elif f["p"] == "DRIFT":
                     drift += 1
+                elif f["p"] == "XL" and pid == "C10":
+                    extra[f["w"]] = extra.get(f["w"], 0) + 1
         idxs = set(v["idx"] for v, _ in mine)
         evs = events_for(os.path.join(m["dir"], "trace.ndjson"), idxs)
         cs = cases_for(os.path.join(m["dir"], "cases.ndjson"), idxs)
@@ -262,6 +265,10 @@ def run(pid, tier, seed, args, t0):
             log("   %s (x%d): %s" % (sig, len(rs), signatures.example(rs[0])[:300]))
             rc = 1
     cov["model_drift"] = drift
+    if pid == "C10":
+        cov["extra_layout_invariants_failed"] = extra
+        if extra:
+            log("NOTE: extra layout invariants (not part of C10) failed on some outputs: %s" % json.dumps(extra, sort_keys=True))
     cov["known_findings_reobserved"] = sorted(seen_known.keys())
     cov["rule"] = ("cases = terminal behaviours of the TLC generator models (exhaustive within the cfg constants) plus the repository's "
                    "test inputs; each is replayed under every configuration of its sweep; distinct_nontrivial = distinct cases whose "
